@@ -198,10 +198,23 @@ def run(rep, facts):
             rep.violation("R1.5", "dispatch/" + i["instance"], i["detail"], i["loc"])
 
 
+def run_buffer_premise(rep, facts):
+    """R1.6: the statement's premise "provided the buffer satisfies the documented size bound" speaks about the configured size; the parser
+    must really allocate at least that much (rules of C06, re-evaluated)."""
+    from . import c06
+    rep.rule("R1.6", "the request parser's buffer is config.aligned_bufsize() bytes and that is never below config.buffer_size (R6.1, R6.3)")
+    sr = check.Report("tmp", "quick")
+    c06.run(sr, facts)
+    for i in sr.instances:
+        if i["rule"] in ("R6.1", "R6.3"):
+            (rep.ok if i["status"] == "ok" else rep.violation)("R1.6", i["instance"], i["detail"], i["loc"])
+
+
 def main(rep, tier):
     f = F.load(("async", "http"))
     rep.configs.append({"features": "async,http", "profile": "debug", "bodies": len(f.bodies)})
     check.guard(rep, "R1", run, f)
+    check.guard(rep, "R1.6", run_buffer_premise, f)
     rep.floor("R1", "rule instances", len([i for i in rep.instances if i["status"] == "ok"]), 10)
     import check as _c
     _c.witnesses(rep, "C01", f)
